@@ -13,6 +13,7 @@ import QV.Driver.QmlDir
 import QV.Driver.Cli
 import QV.Driver.Ir
 import QV.Driver.Passes
+import QV.Driver.C03
 
 open QV
 
@@ -55,6 +56,9 @@ def dispatch (req : Sexp) : Sexp :=
   | .list (.atom "build" :: args) => Driver.Ir.handleBuild args
   | .list (.atom "cfgcheck" :: args) => Driver.Ir.handleCfgCheck args
   | .list (.atom "passes" :: args) => Driver.Passes.handle args
+  | .list (.atom "literal" :: args) => Driver.C03.handleLiteral args
+  | .list (.atom "spec-mv" :: args) => Driver.C03.handleSpecMv args
+  | .list (.atom "c03-judge" :: args) => Driver.C03.handleJudge args
   | _ => .list [.atom "bad-request"]
 
 partial def loop (h : IO.FS.Stream) (out : IO.FS.Stream) : IO Unit := do
